@@ -156,8 +156,8 @@ func HarnessC13Teardown() {
 	vSettle()
 	vAssert(vhStreamsClosed(cc.channel), "c13:client-streams-and-receiver-done-closed")
 	vAssert(vhStreamsClosed(sc.channel), "c13:server-streams-and-receiver-done-closed")
-	vAssert(!clT.Connected(), "c13:client-connection-closed")
-	vAssert(!srvT.Connected(), "c13:server-connection-closed")
+	vAssert(clT.isClosed(), "c13:client-connection-closed")
+	vAssert(srvT.isClosed(), "c13:server-connection-closed")
 	vAssert(clListenDone, "c13:client-dispatch-loop-returned")
 	vAssert(served, "c13:server-serving-goroutine-returned")
 	vAssert(finished == 1, "c13:finished-callback-fired-once")
@@ -165,4 +165,60 @@ func HarnessC13Teardown() {
 	srvCancel()
 	vSettle()
 	vAssert(vThreadsLive() <= 0, "c13:no-goroutine-left-behind")
+}
+
+// HarnessC13Parked: the terminating call must get through even when the local receiver goroutine is
+// parked handing an inbound envelope (of any kind) to a stream nobody is reading at that moment.
+func HarnessC13Parked() {
+	buf := vParam("buf", 0)
+	clT, srvT := newInProcessTransportPair("c13p", 1)
+	cc := NewClientChannel(clT, buf)
+	sc := NewServerChannel(srvT, buf, Node{Identity{"postmaster", "srv"}, "s1"}, vhSID)
+	cc.sessionID = vhSID
+	cc.state = SessionStateEstablished
+	sc.state = SessionStateEstablished
+	cc.startRcv.Do(cc.startReceiver)
+	sc.startRcv.Do(sc.startReceiver)
+	ctx, cancel := context.WithTimeout(context.Background(), 5*time.Second)
+	defer cancel()
+	// the peer's envelope is in flight; the local application is not reading that stream right now
+	e := vhEnvelopeOfKind(nondetChoice("kind", 4), "inflight")
+	who := vhChoice("who", 4)
+	if who == 0 {
+		_ = vhSendKind(sc.channel, ctx, e) // towards the client, which is about to finish
+	} else {
+		_ = vhSendKind(cc.channel, ctx, e) // towards the server, which is about to end the session
+	}
+	vQuiesce()
+	returned := false
+	go func() {
+		switch who {
+		case 0:
+			_, _ = cc.FinishSession(ctx)
+		case 1:
+			_ = sc.FinishSession(ctx)
+		case 2:
+			_ = sc.FailSession(ctx, &Reason{Code: 1, Description: "stop"})
+		default:
+			_ = sc.Close()
+		}
+		returned = true
+	}()
+	if who == 0 {
+		// a well-behaved server answers the finishing request
+		go func() {
+			if s, err := sc.receiveSession(ctx); err == nil && s.State == SessionStateFinishing {
+				_ = sc.FinishSession(ctx)
+			}
+		}()
+	}
+	vSettle()
+	vReach("c13:parked-settled")
+	vAssert(returned, "c13:terminating-call-returns-with-receiver-parked")
+	_ = cc.Close()
+	_ = sc.Close()
+	vSettle()
+	vAssert(clT.isClosed(), "c13:parked-client-connection-closed")
+	vAssert(srvT.isClosed(), "c13:parked-server-connection-closed")
+	vAssert(vThreadsLive() <= 0, "c13:parked-no-goroutine-left-behind")
 }
